@@ -22,7 +22,7 @@ Lemma C03_data_exact_lemma m reg tm bytes h tid rs tm' :
     (length rs <= length (wire_body bytes))%nat.
 Proof.
   intros D. destruct (decode_packet_data _ _ _ _ _ _ _ _ D) as [Sp _].
-  unfold spec_packet_data in Sp.
+  unfold spec_packet_data, spec_packet_data_with in Sp.
   destruct (_ && _); [|discriminate].
   destruct (tm_lookup tm (wire_obs bytes) (wire_setid bytes)) as [tpl|]; [|discriminate].
   destruct (spec_data (keep_of m) tpl (wire_body bytes)) as [rs0|] eqn:Sd; [|discriminate].
